@@ -155,36 +155,86 @@ Theorem C17_clumpstr_terminates :
 Proof. exact clumpstr_terminates. Qed.
 Print Assumptions C17_clumpstr_terminates.
 
-(* The boolean checker evaluated on the rows of the .clump file means the property:
-   index = not-yet-clumped, satisfies [ei], minimal p among those, first in file order among
-   ties; members (members_spec): every not-yet-clumped variant in the window [wlo] is listed iff
-   it passes the r2 test, everything listed is a not-yet-clumped variant in [wlo] or [whi] that
-   passes, nothing is listed twice; the file ends only when nothing satisfies [es].
+(* The boolean checker evaluated on the rows of the .clump file means the property, stated on rows
+   of the loaded table (a printed variant names a row by ID, CHROM, POS; IDs may repeat): the
+   checker accepts only if the printed rows are the printed form [sigs_of cl] of some [cl] that
+   resolves every printed variant to a row such that (greedy_rows) each index is a not-yet-clumped
+   row, satisfies [ei], has minimal p among those and is the first in file order among ties;
+   its members (members_spec) are not-yet-clumped rows, none twice, every not-yet-clumped row in
+   the window [wlo] is a member iff it passes the r2 test, every member is in [wlo] or [whi] and
+   passes; the next clump is over the table without the rows of this one; the file ends only when
+   nothing satisfies [es].
    holds_clump instantiates ei := p < p1, es := p < p1 and p < 1, wlo / whi := |dpos|/1000 < kb
    over Q with kb the smaller / larger of the decimal typed and the float64 it parses to. *)
 Theorem C17_greedy_okb_sound :
   forall ei es wlo whi pb obs st,
-  greedy_okb ei es wlo whi (fun iv c => Some (pb iv c)) st obs = true -> greedy_ids ei es wlo whi pb st obs.
+  NoDup (map sv_key st) ->
+  greedy_okb ei es wlo whi (fun iv c => Some (pb iv c)) st obs = true ->
+  exists cl, sigs_of cl = obs /\ greedy_rows ei es wlo whi pb st cl.
 Proof. exact greedy_okb_sound. Qed.
 Print Assumptions C17_greedy_okb_sound.
 
-(* with one window predicate the member clause is: listed = the IDs of exactly the not-yet-clumped
-   variants in the window that pass the r2 test, as a duplicate-free set *)
+(* with one window predicate the member clause is: the members are exactly the not-yet-clumped
+   rows in the window that pass the r2 test, none twice *)
 Theorem C17_members_spec_single :
   forall win pb iv st ms,
   members_spec win win pb iv st ms ->
-  (forall x, In x ms <-> In x (map sv_id (members win pb iv st))) /\ NoDup ms.
+  (forall c, In c ms <-> In c (members win pb iv st)) /\ NoDup (map sv_key ms).
 Proof. exact members_spec_single. Qed.
 Print Assumptions C17_members_spec_single.
 
-(* ... and the model's output satisfies that same specification (distinct IDs) *)
+(* ... and the model's output satisfies that same specification, whatever the IDs *)
 Theorem C17_model_meets_checker_spec :
   forall p1 win pb fuel stats cl,
-  NoDup (map sv_key stats) -> NoDup (map sv_id stats) ->
+  NoDup (map sv_key stats) ->
   clump_loop_total fuel p1 win pb stats = Ok cl ->
-  greedy_ids (eligible p1) (eligible p1) win win pb stats (ids_of cl).
-Proof. intros. apply greedy_to_ids; [assumption|assumption|]. eapply clump_loop_greedy. eassumption. Qed.
+  greedy_rows (eligible p1) (eligible p1) win win pb stats cl.
+Proof. intros. apply greedy_to_rows; [assumption|]. eapply clump_loop_greedy. eassumption. Qed.
 Print Assumptions C17_model_meets_checker_spec.
+
+(* no row is in two clumps of anything the checker's specification admits *)
+Theorem C17_greedy_rows_disjoint :
+  forall ei es wlo whi pb st cl,
+  greedy_rows ei es wlo whi pb st cl ->
+  ForallOrdPairs (fun c1 c2 => forall x, In x (clump_keys c1) -> In x (clump_keys c2) -> False) cl.
+Proof. exact greedy_rows_disjoint. Qed.
+Print Assumptions C17_greedy_rows_disjoint.
+
+(* What holds_clump = true establishes about an observed .clump file of a Pearson run on input
+   inside the quantifier (both tables load, SNP genotypes complete and biallelic, every loaded
+   variant has exactly one genotype record, kb finite), whatever the variant IDs: the file is the
+   printed form of a greedy clumping of the loaded rows.  (holds_clump k is holds_core of the
+   case's configuration, oracle - pearson_oracle in Pearson mode -, the exact value kq of the
+   float64 kb, the decimal typed and the observed rows.) *)
+Theorem C17_holds_clump_sound :
+  forall c kq kbdec st gts obs,
+  Bool.eqb (is_some (k_rows_snp c)) (is_some (k_snps c)) = true ->
+  Bool.eqb (is_some (k_rows_str c)) (is_some (k_strs c)) = true ->
+  is_some (k_snps c) || is_some (k_strs c) = true ->
+  k_exact c = false ->
+  match k_snps c with Some a => existsb snp_calls_bad (gs_vars a) | None => false end = false ->
+  stats_of c = Some st -> merged_gts (k_snps c) (k_strs c) = Ok gts ->
+  (forall v, In v st -> exists g, load_variant gts v = Ok g) ->
+  holds_core c pearson_oracle kq kbdec (Ok obs) = true ->
+  exists cl, sigs_of cl = map row_sigs obs /\
+    greedy_rows (below_p1 (k_p1 c)) (eligible (k_p1 c))
+                (win_q (Qmin_b kq kbdec)) (win_q (Qmax_b kq kbdec))
+                (pearson_pb (k_r2 c) gts) st cl.
+Proof. exact holds_core_sound. Qed.
+Print Assumptions C17_holds_clump_sound.
+
+(* The checker on duplicate IDs: the same ID "7" on two chromosomes, both rows eligible.  The greedy
+   clumping has two clumps; a file that stops after the first (what removal by ID produces) is
+   rejected, as is one that lists the second row as a member of the first clump. *)
+Example C17_checker_duplicate_id_example :
+  let st := [mksv 7 1 1000 (1#1000) 0 0; mksv 7 2 1000 (1#500) 0 1] in
+  let chk := greedy_okb (eligible (1#100)) (eligible (1#100)) (win_q (1#1)) (win_q (1#1))
+                        (fun _ _ => Some true) st in
+  (chk [((7, 1, 1000), [(7, 1, 1000)]); ((7, 2, 1000), [(7, 2, 1000)])],
+   chk [((7, 1, 1000), [(7, 1, 1000)])],
+   chk [((7, 1, 1000), [(7, 1, 1000); (7, 2, 1000)])]) = (true, false, false).
+Proof. vm_compute. reflexivity. Qed.
+Print Assumptions C17_checker_duplicate_id_example.
 
 (* Only variants not above the inclusion threshold are ever loaded ... *)
 Theorem C17_load_not_above_p2 :
